@@ -1,6 +1,6 @@
 CONSTANTS
   Impl = "asis"
-  Clocks <- ClocksSmall
+  Clocks <- ClocksTiny
   Chans <- ChansSmall
   Partners = 0
   Groups = 16
